@@ -240,6 +240,11 @@ def a3_terminal_parity(ck):
     b5_is_check(ck)
     b6_from_occupancy(ck)
     b7_dispatch(ck)
+    # ... and the legal move list, which is decided on successor positions: the successor function treats the colours alike (C02's U rules)
+    from . import c02 as _c02
+    _ctx = {}
+    for _r in (_c02.collect_sets, _c02.u0_u4_piece_updates, _c02.u1_rook_relocation, _c02.u2_rights, _c02.u3_u5_state_fields):
+        _r(ck, _ctx)
 
 
 def _is_square_term(prog, body, t):
@@ -377,6 +382,10 @@ def m1_terms_colour_parametric(ck):
                     cn = callee_name(t)
                     if cn.split("::")[-1] in ("forward", "backward") and "color::Color" in cn:
                         bad.append((n, t.get("line"), "colour-direction helper %s" % cn.split("::")[-1]))
+                    # an order-sensitive choice among the colours (ties go to the first / last of Color::ALL)
+                    if cn.split("::")[-1] in ("max_by_key", "min_by_key", "max_by", "min_by", "find", "find_map", "position", "last", "nth", "rposition") and \
+                            any(x[0] == "const" and x[1] == "weechess_core::color::Color::ALL" for a in t["args"] for x in walk(tb.operand(a))):
+                        bad.append((n, t.get("line"), "order-sensitive choice (%s) over Color::ALL: a tie is decided by which colour comes first" % cn.split("::")[-1]))
         ck.req(not bad, "M1.colour_parametric", fn.split("::")[-2], b.where(bad[0][1] if bad else None),
                "the term treats the colours differently (%s in %s): a position and its colour-swapped rank mirror are scored differently" % (bad[0][2] if bad else "", bad[0][0].split("::")[-1] if bad else ""),
                "%d function(s) in scope, no colour constant / branch / direction helper" % len(scope))
